@@ -317,4 +317,17 @@ RenderFrag(fm0, delivery, ops) ==
   Let(Placements(fm, r0, Len(lead)), LAMBDA pl :
       [ file |-> EncFile(ApplyOps(Root(lead \o FragKids(fm, pl)), ops, 1)),
         init |-> IF delivery = "one" THEN <<>> ELSE EncFile(Root(InitKids(fm))) ]))))
+-----------------------------------------------------------------------------
+(* Metadata (C18).  md = [present : "none" | "udta" | "meta" | "full",
+                          fullbox, handler (4cc), items : Seq([cc, type (Big), data])]
+   present "none": no udta; "udta": empty udta; "meta": meta + hdlr without ilst; "full": with ilst *)
+ItemNode(it) == Cont(it.cc, <<>>, <<Leaf(EncData([data_type |-> it.type, data |-> it.data]))>>)
+UdtaNodes(md) ==
+  IF md.present = "none" THEN <<>>
+  ELSE IF md.present = "udta" THEN <<Cont(UDTA, <<>>, <<>>)>>
+  ELSE LET hd == Leaf(EncHdlr([version |-> 0, flags |-> 0, handler_type |-> md.handler, name |-> <<>>]))
+           il == Cont(ILST, <<>>, [i \in 1..Len(md.items) |-> ItemNode(md.items[i])])
+       IN <<Cont(UDTA, <<>>,
+                 <<Cont(META, IF md.fullbox THEN Zeros(4) ELSE <<>>,
+                        IF md.present = "meta" THEN <<hd>> ELSE <<hd, il>>)>>)>>
 =============================================================================
